@@ -745,6 +745,12 @@ where
                 };
                 ops.push(json!({"op": "cm", "g": g, "fn": "rescale", "d": d, "lam": lam, "cls": "rand"}));
             }
+            "batch" if r.below(6) == 0 => {
+                // a long slice (every register many times, in random order)
+                let n = 40 + r.below(60);
+                let pat: Vec<u64> = (0..n).map(|_| r.below(nreg)).collect();
+                ops.push(json!({"op": "cm", "g": g, "fn": "batch_long", "pattern": pat, "cls": "long-batch"}));
+            }
             "batch" => {
                 let n = r.below(nreg + 1);
                 let regs: Vec<u64> = (0..n).map(|_| r.below(nreg)).collect();
@@ -864,6 +870,23 @@ where
     }
     for _ in 0..2 {
         v.push((full_order_point::<G>(r).into_projective(), "full-order"));
+    }
+    {
+        // special representatives (l^2 X, l^3 Y, l Z) with l = -1 and l = 2 of a subgroup point
+        use ff::Field;
+        let base = v[3].0.into_affine().into_projective();
+        let (x, y, _) = { let (x, y, z) = base.as_tuple(); (*x, *y, *z) };
+        let mut m1 = G::Base::one();
+        m1.negate();
+        let mut ny = y;
+        ny.negate();
+        v.push((G::raw(x, ny, m1), "Z=-1"));
+        let mut two = G::Base::one();
+        two.double();
+        let (mut x4, mut y8) = (x, y);
+        x4.double(); x4.double();
+        y8.double(); y8.double(); y8.double();
+        v.push((G::raw(x4, y8, two), "Z=2"));
     }
     if with_t3 {
         // the order-3 point (0, 2) of E1
